@@ -8,6 +8,7 @@ package suites
 import (
 	"fmt"
 
+	"github.com/glowlabs-org/gca-backend/server"
 	"verifharness/core"
 	"verifharness/srv"
 )
@@ -55,6 +56,12 @@ func opsHistory(res *core.Result, r *core.RNG, p profile, http bool, nops int) (
 		s.w.CaptureCrashPoints(func(n int) bool { seen++; return seen <= 14 || r.Intn(6) == 0 })
 		pre := s.w.S.VerifSnapshot()
 		s.opViews = append(s.opViews, opView{0, 0, pre, pre})
+		s.hopViews = map[int]server.VerifSnap{}
+		s.w.OnHop = func(n int) {
+			if s.w.S != nil {
+				s.hopViews[n] = s.w.S.VerifSnapshot()
+			}
+		}
 	}
 	// before registration: nothing may be authorized (C07)
 	if p.name == "register" || p.name == "equip" || r.Chance(25) {
@@ -127,11 +134,11 @@ func opsWorker(name string, res *core.Result, r *core.RNG, tier, out string) err
 
 var requiredClasses = map[string][]string{
 	"slots":    {"dgram.report", "dgram.replay", "dgram.resigned-same-content", "outcome.changed", "slots.tour"},
-	"weeks":    {"rotate.rotated", "stats.archived", "stats.live1", "stats.live2", "stats.future", "stats.misaligned", "stats.false-negatives", "impact.round", "weeks.tour"},
+	"weeks":    {"rotate.rotated", "stats.archived", "stats.live1", "stats.live2", "stats.future", "stats.misaligned", "stats.huge", "stats.false-negatives", "impact.round", "weeks.tour"},
 	"restart":  {"restart", "restart.catchup", "restart.tour"},
-	"equip":    {"authorize.new", "authorize.duplicate", "authorize.bad-signature", "authorize.conflict-field", "authorize.conflict-other-key", "authorize.banned-id", "authorize.before-registration", "equip.tour"},
-	"register": {"register.valid", "register.wrong-signer", "register.altered-key", "register.other-valid", "register.by-gca", "register.tour"},
-	"hostile":  {"dgram.hostile-random", "stats.misaligned", "hostile.tour"},
+	"equip":    {"authorize.new", "authorize.duplicate", "authorize.bad-signature", "authorize.conflict-field", "authorize.conflict-other-key", "authorize.banned-id", "authorize.before-registration", "authorize.conflict-signed-zero", "equip.tour"},
+	"register": {"register.valid", "register.wrong-signer", "register.altered-key", "register.other-valid", "register.by-gca", "register.write-fault", "register.tour"},
+	"hostile":  {"dgram.hostile-random", "stats.misaligned", "hostile.tour", "peer.ban-reannounce"},
 	"crash":    {"crash.image", "crash.recovered", "restart"},
 }
 
